@@ -233,6 +233,20 @@ class Exec:
         # parameters
         for (name, kind, _default) in c.params:
             kind = str(kind).replace('kw:', '')
+            if kind == 'kwargs':
+                # **kwds: a record over the keys the contract declares (Contract.kwargs_keys): a presence flag and
+                # a value per key; the contract sees them as <name>__has_<key> / <name>__<key>
+                rec = {}
+                for key, kk in c.kwargs_keys[name]:
+                    present = L.fresh('arg_%s_has_%s' % (name, key), L.B)
+                    val = L.fresh('arg_%s_%s' % (name, key), L.KIND_SORT[kk])
+                    rec[key] = (present, V(kk, val))
+                    self.args['%s__has_%s' % (name, key)] = present
+                    self.args['%s__%s' % (name, key)] = val
+                    if kk in ('ref', 'set', 'list'):
+                        st.assume(st.alive(val))
+                st.env[name] = V('kwdict', None, rec)
+                continue
             k = 'list' if kind == 'varargs' else kind
             t = L.fresh('arg_' + name, L.KIND_SORT[k])
             st.env[name] = V(k, t)
@@ -257,6 +271,8 @@ class Exec:
             c.ghost_init(st)
         for (name, kind, _d) in c.params:
             kind = str(kind).replace('kw:', '')
+            if kind == 'kwargs':
+                continue
             if kind in ('ref', 'set', 'list', 'varargs'):
                 st.assume(st.alive(self.args[name]))
             if kind == 'set':
